@@ -55,6 +55,8 @@ func (m *Mint) checkInvoicePaid(ctx context.Context, quoteId string) {
 			m.logInfof("received update from invoice sub. Invoice for mint quote '%v' is PAID", mintQuote.Id)
 			// the quote could have already been marked as paid (and issued) by a state check
 			// so only mark it as paid if it is still unpaid
+			m.mintQuoteMu.Lock()
+			defer m.mintQuoteMu.Unlock()
 			currentQuote, err := m.db.GetMintQuote(quoteId)
 			if err != nil {
 				m.logErrorf("could not get mint quote '%v' from db: %v", quoteId, err)
